@@ -39,6 +39,13 @@ def scenarios(tier):
     out.append({'name': 'calculate_grid_mask_bounds[empty mask is refused]', 'fn': 'scn_bounds_empty', 'kwargs': {}})
     for edges in ('none', 'both', 'dimension'):
         out.append({'name': f'UGrid.apply_clip_mask data rows[edges={edges}]', 'fn': 'scn_mesh_data', 'kwargs': {'edges': edges}})
+    if tier == 'thorough':
+        for fill, si in (('int_fill', 0), ('none', 0), ('none', 1), ('nan', 1)):
+            for edges in ('none', 'both'):
+                out.append({'name': f'UGrid.apply_clip_mask data rows[edges={edges}, {fill}, start_index={si}]', 'fn': 'scn_mesh_data',
+                            'kwargs': {'edges': edges, 'fill': fill, 'si': si}})
+        for layout in (('x', 'y'), ('b', 'y', 't', 'x'), ('t', 'x')):
+            out.append({'name': f'mask_grid_data_array[variable{layout}]', 'fn': 'scn_mask_array', 'kwargs': {'layout': layout}})
     for ci, cfg in enumerate(GRID_CONFIGS):
         out.append({'name': f'mask_grid_dataset[{cfg[0]}]', 'fn': 'scn_grid_dataset', 'kwargs': {'ci': ci}})
     return out
@@ -341,7 +348,8 @@ def _valid_mesh(c, it, edges, fill, si, extra):
     info = ds.info
     tables = {}
     if edges in ('both', 'edge_node'):
-        t = Table(c, 'edge_node', info['nedge'], 2, 'none', si, False, 'nedge', 'Two', info['nnode'])
+        # every table carries its own index base: edge_node uses the other one than face_node
+        t = Table(c, 'edge_node', info['nedge'], 2, 'none', 1 - si, False, 'nedge', 'Two', info['nnode'])
         ds._vars['edge_node'] = t.variable
         tables['edge_node'] = t
     conv = it.instantiate(cls(it, 'emsarray.conventions.ugrid', 'UGrid'), [ds], {})
@@ -440,6 +448,6 @@ def scn_mesh_data(c, edges, fill='int_fill', si=1):
         if not isinstance(got, SFloat):
             raise PathEnd()
         c.check('edge_node: row k lists the NEW indexes of the nodes of the k-th selected edge',
-                s_and(got.is_fin(), s_eq(got.val, sels['node'][1].rank(enode) + si)))
+                s_and(got.is_fin(), s_eq(got.val, sels['node'][1].rank(enode) + (1 - si))))
         c.check('edge_node: saved as an integer table', getattr(vo.encoding.get('dtype'), 'kind', None) == 'i')
     return out
